@@ -23,7 +23,9 @@ BOUNDS = {"quick": "tau 2..6 (distinct symbols, all equal, and every pattern of 
 ASSUMPTIONS = ["for n >= 7 (8 in thorough) Q(n,k) is compared with a reference recursion (exponential formula over the "
                "component of vertex 1), itself validated against exhaustive enumeration for smaller n - stated as "
                "reference-model agreement, not enumeration",
-               "polynomial identity covers all real phi and neighbour values"]
+               "polynomial identity covers all real phi and neighbour values",
+               "call histories of the memoised counters: every ordered pair of Q / QQ calls with n <= 5 (6) from freshly "
+               "loaded module state, and one descending pass from n = 14"]
 
 
 def instances(tier, seed):
@@ -36,6 +38,12 @@ def instances(tier, seed):
     for lo, hi in ((7 if tier == "quick" else 8, 12), (13, 16), (17, 19), (20, 22)):
         yield {"kind": "Qref", "lo": lo, "hi": hi}
     yield {"kind": "QQ7"}
+    # call histories: every ordered pair of calls of Q / QQ with n <= 5 (6 in thorough) from freshly loaded module state
+    calls = [(f, n, k) for f in ("Q", "QQ") for n in range(1, (6 if tier == "quick" else 7))
+             for k in range(0, n * (n - 1) // 2 + (2 if f == "Q" else 1))]   # QQ is only defined up to the complete graph
+    for i in range(0, len(calls), 4):
+        yield {"kind": "Qpairs", "first": calls[i:i + 4], "nmax": 5 if tier == "quick" else 6}
+    yield {"kind": "Qdescending"}
     maxn = 4 if tier == "quick" else 5
     for n in range(1, maxn + 1):
         masks = list(enumr.labelled_graph_masks(n))
@@ -234,6 +242,62 @@ def run_instance(inst, tier):
                 res.violation("C16:QQ-count", f"QQ(7,{k}) = {got}, there are {ref_Q(7, k)} connected labelled graphs "
                               f"with 7 vertices and {k} edges", {"kind": "QQ7"})
             res.nontrivial.add(("QQ7", k))
+    elif kind == "Qpairs":
+        # a value cannot depend on what was asked before: for every first call a and every second call b, the module
+        # is loaded afresh (empty memo tables), a is made, then b is made and compared with the enumeration
+        import importlib
+        import gcmpy.message_passing.number_connected_graphs as ncg
+        nmax = inst["nmax"]
+        counts = {n: connected_counts(n) for n in range(1, nmax + 1)}
+        want = lambda n, k: counts[n][k] if k < len(counts[n]) else 0
+        seconds = [(f, n, k) for f in ("Q", "QQ") for n in range(1, nmax + 1)
+                   for k in range(0, n * (n - 1) // 2 + (2 if f == "Q" else 1))]
+        for a in inst["first"]:
+            a = tuple(a)
+            for b in seconds:
+                ncg = importlib.reload(ncg)
+                res.executions += 1
+                res.states += 1
+                res.transitions += 2
+                try:
+                    getattr(ncg, a[0])(a[1], a[2])
+                    got = getattr(ncg, b[0])(b[1], b[2])
+                except Exception as e:
+                    got = repr(e)
+                if got != want(b[1], b[2]):
+                    res.violation("C16:Q-depends-on-call-history",
+                                  f"after {a[0]}({a[1]},{a[2]}) on freshly loaded module state, {b[0]}({b[1]},{b[2]}) = "
+                                  f"{got}; there are {want(b[1], b[2])} such connected labelled graphs",
+                                  {"kind": "Qpairs", "first": [list(a)], "nmax": nmax})
+                    break
+                if want(b[1], b[2]):
+                    res.nontrivial.add(("Qpairs", a, b))
+        importlib.reload(ncg)
+        res.flags.add("call-pairs")
+    elif kind == "Qdescending":
+        # one long history in the opposite order of the other instances: n and k descending, Q and QQ interleaved
+        import importlib
+        import gcmpy.message_passing.number_connected_graphs as ncg
+        ncg = importlib.reload(ncg)
+        for n in range(14, 0, -1):
+            for k in range(n * (n - 1) // 2 + 1, -1, -1):
+                fs = ("Q", "QQ") if n <= 6 and k <= n * (n - 1) // 2 else ("Q",)
+                for fname in fs:
+                    res.executions += 1
+                    res.states += 1
+                    res.transitions += 1
+                    try:
+                        got = getattr(ncg, fname)(n, k)
+                    except Exception as e:
+                        got = repr(e)
+                    if got != ref_Q(n, k):
+                        res.violation("C16:Q-depends-on-call-history",
+                                      f"in a descending pass from n=14, {fname}({n},{k}) = {got}, reference {ref_Q(n, k)}",
+                                      {"kind": "Qdescending"})
+                        return res
+                    if got:
+                        res.nontrivial.add(("Qdesc", fname, n, k))
+        res.flags.add("descending-pass")
     elif kind == "Qref":
         from gcmpy.message_passing.number_connected_graphs import Q
         for n in range(inst["lo"], inst["hi"] + 1):
